@@ -83,17 +83,17 @@ impl WaitGroup {
 
     // Slow path: Wait for notification.
     loop {
-      // Wait until notified. notified() consumes a permit.
-      #[cfg(rzmq_verif)] crate::verif::rpq::schedule_point("wg_wait_before_notified");
-      self.notify_on_zero.notified().await;
-
-      // Check count again after notification (spurious wakeup or race check).
+      // Create the `Notified` future BEFORE re-checking the count: `notify_waiters()` only wakes
+      // futures that already exist, so a `done()` that brings the count to zero between the check
+      // and the creation of the future would otherwise be missed and `wait()` would sleep forever.
+      let notified = self.notify_on_zero.notified();
       if self.count.load(Ordering::Acquire) == 0 {
-        tracing::trace!("WaitGroup::wait() released after notification");
+        tracing::trace!("WaitGroup::wait() released: count reached zero");
         return;
       }
-      tracing::trace!("WaitGroup::wait() woke, but count is non-zero; re-waiting");
-      // If count is still non-zero, loop and wait again.
+      #[cfg(rzmq_verif)] crate::verif::rpq::schedule_point("wg_wait_before_notified");
+      notified.await;
+      tracing::trace!("WaitGroup::wait() woke; re-checking count");
     }
   }
 
